@@ -385,7 +385,7 @@ def report(run, batch, prop, theorem, mism, rows, limit=4):
         comp, v = code // 10, code % 10
         name = job["name"]
         replay = {
-            "kind": "property-fails-on-implementation" if v == 2 else "correspondence-broken",
+            "kind": {2: "property-fails-on-implementation", 3: "model-violates-its-own-boolean-property-inside-the-guard"}.get(v, "correspondence-broken"),
             "theorem": theorem,
             "correspondence": "L2:%s:shoot enum + oracle vs Model/Enum.v, component %s" % (prop, COMPONENTS[comp] if comp < len(COMPONENTS) else comp),
             "type": t["type"], "kind_of_type": t["kind"], "flags": t["flags"],
